@@ -17,7 +17,12 @@
 (* Arrive events are target connections driven through the session layer of a node other than   *)
 (* the source node: the same two demands on its decision (forwarded to the source node while the   *)
 (* tunnel waits - what = refused-arrival | wrongnode-arrival; not forwarded once the id is gone).  *)
-(* A Remove may carry its cause (why = shutdown: the source node's SessionManager was closed).     *)
+(* A Remove / TunnelEnd may carry its cause (why = shutdown: the source node's SessionManager was  *)
+(* closed; the lifecycle's removal then runs on a finished context).  A Removed event is the         *)
+(* lifecycle having passed its removal step - also when the driver saw that it issued no delete       *)
+(* (skipped = TRUE): the end is fully processed either way, and the id must not resolve.              *)
+(* In overlap mode (spec/RoutingSet.tla) Create / Set are the encoding and the sending of the         *)
+(* record's SET, overlapping with those of other tunnels: value class "...:overlap".                   *)
 (*                                                                                              *)
 (* Registration and removal are logged either as single events (Register / Remove: RoutingTable  *)
 (* API level) or as the call-site steps the driver observed: Create (bridge in the map, the       *)
@@ -33,7 +38,7 @@
 (*   "period=1.5s|2.5s"       - waiting period that is not a whole number of seconds.              *)
 (* detail:  Resolve/<backend>:<what>:<value class>   what = notfound | expired | error |          *)
 (*          wrongnode | fields | addr                                                            *)
-(*          Gone/<backend>:<why>                     why  = never | removed | lapsed |            *)
+(*          Gone/<backend>:<why>                     why  = never | removed | lapsed | shutdown | *)
 (*                                                          ended:late-set (the record was       *)
 (*                                                          written after the removal had run)   *)
 EXTENDS VLib
@@ -74,11 +79,12 @@ TrSet == /\ Is("Set") /\ Ev.t \in Tunnels
 TrTunnelEnd == /\ Is("TunnelEnd") /\ Ev.t \in Tunnels
                /\ br' = [br EXCEPT ![Ev.t] = NoBridge]
                /\ rp' = [rp EXCEPT ![Ev.t] = TRUE]
-               /\ Step /\ UNCHANGED <<viol, be, why, fl>>
+               /\ why' = [why EXCEPT ![Ev.t] = IF Has("why") THEN Ev.why ELSE "ended"]      \* the cause of the end
+               /\ Step /\ UNCHANGED <<viol, be, fl>>
 
 TrRemoved == /\ Is("Removed") /\ Ev.t \in Tunnels
              /\ rp' = [rp EXCEPT ![Ev.t] = FALSE]
-             /\ why' = [why EXCEPT ![Ev.t] = "removed"]
+             /\ why' = [why EXCEPT ![Ev.t] = IF why[Ev.t] = "shutdown" THEN "shutdown" ELSE "removed"]
              /\ Step /\ UNCHANGED <<viol, be, br, fl>>
 
 TrRemove == /\ Is("Remove") /\ Ev.t \in Tunnels
